@@ -98,12 +98,13 @@ pub fn ansi_16_color_name_to_number(name: &str) -> Option<u8> {
 }
 
 fn ansi_16_color_number_to_name(n: u8) -> Option<&'static str> {
-    for (k, _n) in &*ANSI_16_COLORS {
-        if *_n == n {
-            return Some(*k);
-        }
-    }
-    None
+    // Several names map to the same number (e.g. "magenta"/"purple"): pick one deterministically,
+    // independently of the iteration order of the hash map.
+    ANSI_16_COLORS
+        .iter()
+        .filter(|(_, &number)| number == n)
+        .map(|(name, _)| *name)
+        .min()
 }
 
 /// The color mode determines some default color choices
